@@ -80,6 +80,12 @@ CHECKS["C12"] = {
     "note": "Agreement of results on every data tree beyond the shared mechanism is value-level and not decided.",
     "technique": "provenance-based who-touches-the-data rule, variant specialisation of per-key code, edge-dominance typestate for counter and pushes, comparison-operator reading",
 }
+CHECKS["C11"] = {
+    "level": "other",
+    "text": "Structural necessary conditions of var's path resolution: both KeyType conversions have the same 6-kind matrix (Null→null key, String→string key, Number→as_i64 or Err, others Err); all positional access inside the lookup's reach goes through the one negative-index helper (which measures and reads the same slice, checked_sub on the negative branch), strings only as Vec<char> from chars() — no byte-based string operation, no direct indexing, no scan over map entries anywhere in the lookup; var returns lookup.unwrap_or[_else](default) with default ∈ {null, clone of operand 1} and never inspects the found value; the three whole-data forms clone the entire data; nothing in var or the lookup parses a value; the dotted-path walker's result is the entire data, None, or exactly the fold over the splitter's segments seeded with Some(data), whose step performs Map::get on objects, helper(parse::<i64>) on arrays, helper over chars on strings and nothing on other kinds.",
+    "note": "The arithmetic of split_with_escape and of the index helper on every path string and tree (escape handling, empty segments, boundaries) is value-level and not decided.",
+    "technique": "variant specialisation matrices, forbidden-call scans over the lookup's call-graph reach (unit-of-measure rule for bytes vs chars), def-use shape rules",
+}
 NOT_APPLICABLE = {}
 for i in range(1, 20):
     p = "C%02d" % i
